@@ -7,6 +7,7 @@ from ..model import AnalysisIncomplete, norm_text
 from ..report import Finding, RuleResult
 from ..symexp import paths_of, is_component, is_synth, expand
 from . import register, A_NET, T_OPS, A_API
+from .layout import layout_rule
 
 
 def _flow(p):
@@ -763,13 +764,17 @@ register(
 
 register(
     "C04",
-    [slp_assemble_rule, noise_src_rule, slp_ctx_rule, ctx_pair_rule],
+    [slp_assemble_rule, noise_src_rule, slp_ctx_rule, ctx_pair_rule, layout_rule],
     "SLP-CTX: the context expression handed to the base distribution and to the transform on every returning path of "
     "Flow._log_prob, _sample and sample_and_log_prob, normalised modulo row replication, must be one single function of the "
     "context argument (today self._embedding_net(context)); a deviating entry point scores or draws under a different conditional. "
     "SLP-ASSEMBLE: symbolic expansion of Flow.sample_and_log_prob: on every returning path the pair is (inverse(noise)[0], "
     "+base_log_prob - inverse(noise)[1]) with noise and base_log_prob the two components of one sample_and_log_prob(num_samples) "
     "call of the base and both inverse components from one call. NOISE-SRC: Flow._sample inverts base.sample(num_samples...). "
+    "LEAD-LAYOUT: abstract evaluation of a leading-axis layout (ROWS, PAIR(a,b), MERGED(a outer, b inner), fresh noise) over the "
+    "expansion of the eight samplers: element-wise operations unify layouts (broadcasting aligns trailing axes), merge / split / "
+    "reshape / repeat_rows / repeat / sub-sampler calls transform them; an order conflict (noise drawn as [n, rows] split as "
+    "[rows, n], a tiled context next to row-major samples, per-row parameters broadcast onto the sample axis) is reported. "
     "CTX-PAIR: in the seven functions that merge a [rows, n] leading pair, the context/parameters are replicated row-major "
     "(repeat_rows(., num_samples) or repeat_interleave(dim=0); .repeat / tile / cat([ctx]*n) are definite errors) and results "
     "are split back as [rows|-1, num_samples]. The statistical half (samples follow exp(log_prob)) is out of reach.",
@@ -778,7 +783,7 @@ register(
 
 register(
     "C18",
-    [arg_check_rule, batch_rule, sample_shape_rule, ctx_pair_rule],
+    [arg_check_rule, batch_rule, sample_shape_rule, ctx_pair_rule, layout_rule],
     "ARG-CHECK: guard dominance in Distribution.log_prob (ValueError under context is not None and differing row counts, before "
     "_log_prob) and Distribution.sample (TypeError unless typechecks.is_positive_int(num_samples / batch_size), before any use). "
     "BATCH-CAT: on each batched path of sample the concatenation axis must be the sample axis -- 0 exactly when context is None, "
